@@ -506,6 +506,41 @@ pub fn c20(tier: &str, seed: u64) -> Vec<Case> {
         if has(&second) { c = c.fail("cache-expiry", "a record received with the cache-flush bit is still returned 1.3 s later".into()); }
         v.push(c);
     }
+    // a busy name: eight records received with TTL 2, a ninth arriving 1.2 s later (past their refresh point, before their
+    // expiry) - all nine are returned; and two TXT records of one name (TTL 4500, no cache-flush bit): the second arriving
+    // does not take the first away (what RFC 6762 does with the cache-flush bit is not done without it)
+    {
+        let mut mgr: ResourceRecordManager<'static> = ResourceRecordManager::new();
+        let host = mk_name(&[b"busy".to_vec(), b"local".to_vec()]);
+        for k in 0..8u32 { mgr.add_cached_resource(ResourceRecord::new(host.clone(), CLASS::IN, 2, RData::A(A { address: k }))); }
+        std::thread::sleep(Duration::from_millis(1200));
+        mgr.add_cached_resource(ResourceRecord::new(host.clone(), CLASS::IN, 2, RData::A(A { address: 8 })));
+        let got = mgr.get_domain_resources(&host, DomainResourceFilter::cached()).flatten().count();
+        let mut c = Case::oracle_only().tag("busy-name");
+        if got != 9 { c = c.fail("cache-expiry", format!("eight records of one name received with TTL 2 and a ninth 1.2 s later: {} of 9 returned by the cached filter at once", got)); }
+        v.push(c);
+        let mut mgr: ResourceRecordManager<'static> = ResourceRecordManager::new();
+        let inst = mk_name(&[b"printer".to_vec(), b"_ipp".to_vec(), b"_tcp".to_vec(), b"local".to_vec()]);
+        let svc = mk_name(&[b"_ipp".to_vec(), b"_tcp".to_vec(), b"local".to_vec()]);
+        let own = mk_name(&[b"me".to_vec(), b"_ipp".to_vec(), b"_tcp".to_vec(), b"local".to_vec()]);
+        let txt = |s: &str| -> ResourceRecord<'static> { ResourceRecord::new(inst.clone(), CLASS::IN, 4500, RData::TXT(simple_dns::rdata::TXT::new().with_string(s).unwrap())).into_owned() };
+        let mut c = Case::oracle_only().tag("txt-siblings");
+        for (k, via_network) in [false, true].iter().enumerate() {
+            for (j, t) in ["paper=a4", "duplex=yes", "paper=a4"].iter().enumerate() {
+                if *via_network {
+                    let mut p = Packet::new_reply(0);
+                    p.answers.push(txt(t));
+                    let wire = p.build_bytes_vec_compressed().unwrap();
+                    let mut ch = None;
+                    simple_mdns::verif::sync_add_response_to_resources(Packet::parse(&wire).unwrap(), &svc, &own, &mut mgr, &mut ch);
+                } else { mgr.add_cached_resource(txt(t)); }
+                let got: Vec<String> = mgr.get_domain_resources(&inst, DomainResourceFilter::cached()).flatten().map(|r| text::rdata(&r.rdata)).collect();
+                let want = if j == 0 && k == 0 { 1 } else { 2 };
+                if got.len() != want { c = c.fail("cache-expiry", format!("TXT records of one name, TTL 4500, no cache-flush bit: after {} arrived ({}) {} TXT record(s) are returned instead of {}", t, if *via_network { "through the listener's ingestion" } else { "add_cached_resource" }, got.len(), want)); }
+            }
+        }
+        v.push(c);
+    }
     // a filter is a description of what is wanted, not a moment in time: built first and used later, it still judges
     // expiry by the clock at the time of the query
     {
